@@ -432,6 +432,8 @@ type OpenFgaDslSyntaxErrorMetadata struct {
 }
 
 type OpenFgaDslSyntaxError struct {
+	// File is the module file the error was found in; set when module files are merged.
+	File         string
 	line, column int
 	msg          string
 	metadata     *OpenFgaDslSyntaxErrorMetadata
